@@ -481,4 +481,41 @@ example : (run always {} [.request 5, .round 0 true, .round 0 false, .request 5,
 
 end handoff
 
+/-! ### deleting everything, on the reference model M6 -/
+
+/-- the root holds no name: every slot beyond "." and ".." is free -/
+def RootEmpty (s : GoNfsd.Model.Fs.FS) : Prop := ∀ idx sl, 2 ≤ idx → (s.get GoNfsd.Gen.Consts.ROOTINUM).slots[idx]? = some sl → sl.inum = 0
+
+theorem reach_root_only (s : GoNfsd.Model.Fs.FS) (he : RootEmpty s) : ∀ x, GoNfsd.Model.Fs.Reach s x → x = GoNfsd.Gen.Consts.ROOTINUM := by
+  intro x hr
+  induction hr with
+  | root => rfl
+  | step d idx ino _ href ih =>
+    subst ih
+    obtain ⟨sl, hg, hi, hne, h2⟩ := href
+    have := he idx sl h2 hg
+    rw [hi] at this; exact absurd this hne
+
+/-- DELETING EVERYTHING FREES EVERY INODE (reference model, histories in which no RENAME moves a directory to another
+    directory — the known finding): in every reachable state in which the root directory holds no name, no inode but the
+    root's is in use.  (Every object in use is reachable from the root by names, `tree_clauses_partial`; with no name in the
+    root there is nothing to reach.) -/
+theorem deleting_everything_frees_every_inode_partial (u : Bool) (sz : Nat) (ops : List (GoNfsd.Model.Fs.Op × GoNfsd.Model.Fs.Choice))
+    (hn : GoNfsd.Model.Fs.NoDirMoves (GoNfsd.Model.Fs.mkfs u sz) ops) (he : RootEmpty (GoNfsd.Model.Fs.run (GoNfsd.Model.Fs.mkfs u sz) ops).1) (x : Nat) (hx : x ≠ GoNfsd.Gen.Consts.ROOTINUM) :
+    ((GoNfsd.Model.Fs.run (GoNfsd.Model.Fs.mkfs u sz) ops).1.get x).kind = 0 := by
+  have hw := GoNfsd.Model.Fs.run_WFT _ ops (GoNfsd.Model.Fs.WFT_mkfs u sz) hn
+  cases hk : ((GoNfsd.Model.Fs.run (GoNfsd.Model.Fs.mkfs u sz) ops).1.get x).kind with
+  | zero => rfl
+  | succ n =>
+    have := reach_root_only _ he x (hw.tree x (by rw [hk]; exact Nat.succ_ne_zero n))
+    exact absurd this hx
+
+/-- non-vacuity: CREATE then REMOVE of a name in the root is a history without directory moves after which the root holds no name -/
+example :
+    GoNfsd.Model.Fs.NoDirMoves (GoNfsd.Model.Fs.mkfs true 100000)
+      [(.create (GoNfsd.Model.Fs.mkFh 1 1) [97] 0, { inum := 2, slot := 2 }), (.remove (GoNfsd.Model.Fs.mkFh 1 1) [97], {})] ∧
+    ((GoNfsd.Model.Fs.run (GoNfsd.Model.Fs.mkfs true 100000)
+      [(.create (GoNfsd.Model.Fs.mkFh 1 1) [97] 0, { inum := 2, slot := 2 }), (.remove (GoNfsd.Model.Fs.mkFh 1 1) [97], {})]).1.get 1).slots.drop 2
+      = [GoNfsd.Model.Fs.freeSlot] := by decide
+
 end GoNfsd.Props.C05
